@@ -477,6 +477,18 @@ func (db *ContractDB) parseLines(p *Program, pkgPath, file string, lines []strin
 				continue
 			}
 			for _, part := range splitTop(it.rest, ',') {
+				part = strings.TrimSpace(part)
+				if strings.HasSuffix(part, "[*]") {
+					// s[*]: every element of the backing array of slice s; the clause keeps the slice expression
+					cl, err := parseClause(strings.TrimSuffix(part, "[*]"))
+					if err != nil {
+						db.errf("%s: %s: %v", file, cur.Name, err)
+						continue
+					}
+					cl.Text = part
+					cur.Assigns = append(cur.Assigns, cl)
+					continue
+				}
 				cl, err := parseClause(part)
 				if err != nil {
 					db.errf("%s: %s: %v", file, cur.Name, err)
